@@ -8,7 +8,7 @@ harness: cexec executes each case on the derive-built schema (data-driven resolv
 V: ExecTrace.tla (MODE=data) evaluates Execution!Execute and compares the response data."""
 import json, os, random, sys
 sys.path.insert(0, os.path.join(os.path.dirname(os.path.abspath(__file__)), "..", "lib"))
-import vlib, gqlgen
+import vlib, gqlgen, execcheck
 
 SCHEMA = os.path.join(vlib.ROOT, "schemas", "exec.json")
 
@@ -78,17 +78,7 @@ def body(c):
     cases += rand_cases
     for i, x in enumerate(cases):
         x["id"] = i + 1
-    vlib.write_ndjson(c.path("cases.ndjson"), cases)
-    (binary,) = vlib.build_harness(["cexec"])
-    p = vlib.run_harness(binary, [c.path("cases.ndjson"), c.path("trace.ndjson")], timeout=3000)
-    if p.returncode != 0:
-        raise vlib.ToolError("cexec failed: " + p.stderr[-2000:])
-    v = vlib.run_tlc("gql/ExecTrace.tla", "gql/ExecTrace.cfg", env={"TRACE": c.path("trace.ndjson"), "SCHEMA": SCHEMA, "MODE": "data"},
-                     workers=8, timeout=6000, keep_lines=50, xmx="12g")
-    verdicts = {t[1]: t[2] for t in v.tagged("VERDICT")}
-    obs = vlib.read_ndjson(c.path("trace.ndjson"))
-    if len(verdicts) != len(obs):
-        raise vlib.ToolError("V produced %d verdicts for %d cases" % (len(verdicts), len(obs)))
+    obs, verdicts = execcheck.run_cases(c, cases, "data")
     for o in obs:
         c.count_case({"t": o["text"], "v": o["vars"], "w": vlib.chash(o["world"])}, nontrivial=True)
         slim = {"text": o["text"], "vars": o["vars"], "world": o["world"], "obs": {"data": o["obs"]["data"], "problem": o["obs"]["problem"]}}
